@@ -38,13 +38,13 @@ Fixpoint loop2 {A} (elem : list N -> result (A * list N)) (n : nat) (b : list N)
 (* Bytes2Deserializer::deserialize_extend; [short] is the error for a chunk longer than the
    remaining input: Invalid in as_slice (decode), Eoi in advance/try_skip (skip) *)
 Fixpoint bytes2_loop (short : err) (n : nat) (len : N) (b : list N) : result (list N * list N) :=
-  match take len b with
-  | Err _ => Err short
-  | Ok (chunk, r) =>
-      if len =? 0 then Ok ([], b) else
-      match n with
-      | O => Err Fuel
-      | S n' =>
+  if len =? 0 then Ok ([], b) else
+  match n with
+  | O => Err Fuel
+  | S n' =>
+      match take len b with
+      | Err _ => Err short
+      | Ok (chunk, r) =>
           '(len', r') <- get_varint 4 r ;;
           '(bs, r'') <- bytes2_loop short n' len' r' ;;
           Ok (chunk ++ bs, r'')
@@ -65,52 +65,56 @@ Definition field_elem (rec : list N -> result (Value * list N)) (b : list N)
   : result ((N * Value) * list N) :=
   '(id, r) <- get_varint 4 b ;; '(v, r') <- rec r ;; Ok ((id, v), r').
 
+(* the per-kind part of `impl Deserialize for Value`, after the depth check and the kind byte;
+   [d'] is the depth of this value (children are decoded with Deserializer::new(buf, d')) *)
+Definition de_kind (utf8 : bool) (rec : walker Value) (n : nat) (d' : nat) (kd : kind) (r : list N)
+  : result (Value * list N) :=
+  match kd with
+  | KNone => Ok (VNone, r)
+  | KSome => '(v, r') <- rec d' r ;; Ok (VSome v, r')
+  | KBool => match r with [] => Err Eoi | x :: r' => Ok (VBool (negb (x =? 0)), r') end
+  | KInt_ i => '(z, r') <- get_int i r ;; Ok (VInt i z, r')
+  | KFixed f => '(bs, r') <- take (fix_len f) r ;; Ok (VFixed f bs, r')
+  | KString => '(len, r1) <- get_varint 4 r ;;
+               '(s, r2) <- take len r1 ;;
+               if negb utf8 || utf8_valid s then Ok (VString s, r2) else Err Invalid
+  | KVec E1 => '(cnt, r1) <- get_varint 4 r ;;
+               '(xs, r2) <- loop1 (rec d') n cnt r1 ;; Ok (VVec xs, r2)
+  | KVec E2 => '(xs, r2) <- loop2 (rec d') n r ;; Ok (VVec xs, r2)
+  | KBytes E1 => '(cnt, r1) <- get_varint 4 r ;;
+                 match take cnt r1 with
+                 | Err _ => Err Invalid
+                 | Ok (bs, r2) => Ok (VBytes bs, r2)
+                 end
+  | KBytes E2 => '(len, r1) <- get_varint 4 r ;;
+                 '(bs, r2) <- bytes2_loop Invalid n len r1 ;; Ok (VBytes bs, r2)
+  | KMap E1 kk => '(cnt, r1) <- get_varint 4 r ;;
+                  '(xs, r2) <- loop1 (map_elem utf8 kk (rec d')) n cnt r1 ;;
+                  Ok (VMap kk (dedup_map xs), r2)
+  | KMap E2 kk => '(xs, r2) <- loop2 (map_elem utf8 kk (rec d')) n r ;;
+                  Ok (VMap kk (dedup_map xs), r2)
+  | KSet E1 kk => '(cnt, r1) <- get_varint 4 r ;;
+                  '(xs, r2) <- loop1 (get_key utf8 kk) n cnt r1 ;;
+                  Ok (VSet kk (dedup_set xs), r2)
+  | KSet E2 kk => '(xs, r2) <- loop2 (get_key utf8 kk) n r ;;
+                  Ok (VSet kk (dedup_set xs), r2)
+  | KStruct E1 => '(cnt, r1) <- get_varint 4 r ;;
+                  '(xs, r2) <- loop1 (field_elem (rec d')) n cnt r1 ;;
+                  Ok (VStruct (dedup_struct xs), r2)
+  | KStruct E2 => '(xs, r2) <- loop2 (field_elem (rec d')) n r ;;
+                  Ok (VStruct (dedup_struct xs), r2)
+  | KEnum => '(id, r1) <- get_varint 4 r ;;
+             '(v, r2) <- rec d' r1 ;; Ok (VEnum id v, r2)
+  end.
+
 Definition de_body (utf8 : bool) (rec : walker Value) (n : nat) : walker Value := fun d b =>
   if (MAX_VALUE_DEPTH <? S d)%nat then Err TooDeep else
-  let d' := S d in
   match b with
   | [] => Err Eoi
   | k :: r =>
       match kind_of_byte k with
       | None => Err Invalid
-      | Some kd =>
-          match kd with
-          | KNone => Ok (VNone, r)
-          | KSome => '(v, r') <- rec d' r ;; Ok (VSome v, r')
-          | KBool => match r with [] => Err Eoi | x :: r' => Ok (VBool (negb (x =? 0)), r') end
-          | KInt_ i => '(z, r') <- get_int i r ;; Ok (VInt i z, r')
-          | KFixed f => '(bs, r') <- take (fix_len f) r ;; Ok (VFixed f bs, r')
-          | KString => '(len, r1) <- get_varint 4 r ;;
-                       '(s, r2) <- take len r1 ;;
-                       if negb utf8 || utf8_valid s then Ok (VString s, r2) else Err Invalid
-          | KVec E1 => '(cnt, r1) <- get_varint 4 r ;;
-                       '(xs, r2) <- loop1 (rec d') n cnt r1 ;; Ok (VVec xs, r2)
-          | KVec E2 => '(xs, r2) <- loop2 (rec d') n r ;; Ok (VVec xs, r2)
-          | KBytes E1 => '(cnt, r1) <- get_varint 4 r ;;
-                         match take cnt r1 with
-                         | Err _ => Err Invalid
-                         | Ok (bs, r2) => Ok (VBytes bs, r2)
-                         end
-          | KBytes E2 => '(len, r1) <- get_varint 4 r ;;
-                         '(bs, r2) <- bytes2_loop Invalid n len r1 ;; Ok (VBytes bs, r2)
-          | KMap E1 kk => '(cnt, r1) <- get_varint 4 r ;;
-                          '(xs, r2) <- loop1 (map_elem utf8 kk (rec d')) n cnt r1 ;;
-                          Ok (VMap kk (dedup_map xs), r2)
-          | KMap E2 kk => '(xs, r2) <- loop2 (map_elem utf8 kk (rec d')) n r ;;
-                          Ok (VMap kk (dedup_map xs), r2)
-          | KSet E1 kk => '(cnt, r1) <- get_varint 4 r ;;
-                          '(xs, r2) <- loop1 (get_key utf8 kk) n cnt r1 ;;
-                          Ok (VSet kk (dedup_set xs), r2)
-          | KSet E2 kk => '(xs, r2) <- loop2 (get_key utf8 kk) n r ;;
-                          Ok (VSet kk (dedup_set xs), r2)
-          | KStruct E1 => '(cnt, r1) <- get_varint 4 r ;;
-                          '(xs, r2) <- loop1 (field_elem (rec d')) n cnt r1 ;;
-                          Ok (VStruct (dedup_struct xs), r2)
-          | KStruct E2 => '(xs, r2) <- loop2 (field_elem (rec d')) n r ;;
-                          Ok (VStruct (dedup_struct xs), r2)
-          | KEnum => '(id, r1) <- get_varint 4 r ;;
-                     '(v, r2) <- rec d' r1 ;; Ok (VEnum id v, r2)
-          end
+      | Some kd => de_kind utf8 rec n (S d) kd r
       end
   end.
 
